@@ -11,14 +11,15 @@ func multiLineStringReader(r io.Reader, byteOrder binary.ByteOrder) (geom.Geom, 
 	if err := binary.Read(r, byteOrder, &numLineStrings); err != nil {
 		return nil, err
 	}
-	lineStrings := make([]geom.LineString, numLineStrings)
+	// The count is not trusted (see readPoints): the slice grows as members are read.
+	lineStrings := []geom.LineString{}
 	for i := uint32(0); i < numLineStrings; i++ {
 		if g, err := Read(r); err == nil {
-			var ok bool
-			lineStrings[i], ok = g.(geom.LineString)
+			lineString, ok := g.(geom.LineString)
 			if !ok {
 				return nil, &UnexpectedGeometryError{g}
 			}
+			lineStrings = append(lineStrings, lineString)
 		} else {
 			return nil, err
 		}
